@@ -105,7 +105,8 @@ structure LInv (s : St) : Prop where
 theorem stepP_LInv_none (s : St) (i : Nat) (op : Option POp)  (hpc : s.pp i = .none ) (h : LInv s) : LInv (stepP s i op) := by
   obtain ⟨hv, h1, h2, h3, h4, h5, h6, h7, h8, h9, h10, h11⟩ := h
   have hp : s.v.plock = true := by rw [hv]; rfl
-  simp only [stepP, hpc, startP, St.endSample, St.beginSample, St.setP, hp, if_true, trackCloneInc_val, trackDropDec_val, trackCloseWhenPrev_val]
+  have hq : s.v.pipe = false := by rw [hv]; rfl
+  simp only [stepP, hpc, startP, St.endSample, St.beginSample, St.setP, hp, hq, Bool.false_eq_true, if_false, if_true, trackCloneInc_val, trackDropDec_val, trackCloseWhenPrev_val]
   repeat' split
   all_goals first
     | exact ⟨hv, h1, h2, h3, h4, h5, h6, h7, h8, h9, h10, h11⟩
@@ -116,7 +117,8 @@ theorem stepP_LInv_none (s : St) (i : Nat) (op : Option POp)  (hpc : s.pp i = .n
 theorem stepP_LInv_reserved (s : St) (i : Nat) (op : Option POp)  (hpc : s.pp i = .reserved ) (h : LInv s) : LInv (stepP s i op) := by
   obtain ⟨hv, h1, h2, h3, h4, h5, h6, h7, h8, h9, h10, h11⟩ := h
   have hp : s.v.plock = true := by rw [hv]; rfl
-  simp only [stepP, hpc, startP, St.endSample, St.beginSample, St.setP, hp, if_true, trackCloneInc_val, trackDropDec_val, trackCloseWhenPrev_val]
+  have hq : s.v.pipe = false := by rw [hv]; rfl
+  simp only [stepP, hpc, startP, St.endSample, St.beginSample, St.setP, hp, hq, Bool.false_eq_true, if_false, if_true, trackCloneInc_val, trackDropDec_val, trackCloseWhenPrev_val]
   repeat' split
   all_goals first
     | exact ⟨hv, h1, h2, h3, h4, h5, h6, h7, h8, h9, h10, h11⟩
@@ -127,7 +129,8 @@ theorem stepP_LInv_reserved (s : St) (i : Nat) (op : Option POp)  (hpc : s.pp i 
 theorem stepP_LInv_gone (s : St) (i : Nat) (op : Option POp)  (hpc : s.pp i = .gone ) (h : LInv s) : LInv (stepP s i op) := by
   obtain ⟨hv, h1, h2, h3, h4, h5, h6, h7, h8, h9, h10, h11⟩ := h
   have hp : s.v.plock = true := by rw [hv]; rfl
-  simp only [stepP, hpc, startP, St.endSample, St.beginSample, St.setP, hp, if_true, trackCloneInc_val, trackDropDec_val, trackCloseWhenPrev_val]
+  have hq : s.v.pipe = false := by rw [hv]; rfl
+  simp only [stepP, hpc, startP, St.endSample, St.beginSample, St.setP, hp, hq, Bool.false_eq_true, if_false, if_true, trackCloneInc_val, trackDropDec_val, trackCloseWhenPrev_val]
   repeat' split
   all_goals first
     | exact ⟨hv, h1, h2, h3, h4, h5, h6, h7, h8, h9, h10, h11⟩
@@ -138,7 +141,8 @@ theorem stepP_LInv_gone (s : St) (i : Nat) (op : Option POp)  (hpc : s.pp i = .g
 theorem stepP_LInv_idle (s : St) (i : Nat) (op : Option POp)  (hpc : s.pp i = .idle ) (h : LInv s) : LInv (stepP s i op) := by
   obtain ⟨hv, h1, h2, h3, h4, h5, h6, h7, h8, h9, h10, h11⟩ := h
   have hp : s.v.plock = true := by rw [hv]; rfl
-  simp only [stepP, hpc, startP, St.endSample, St.beginSample, St.setP, hp, if_true, trackCloneInc_val, trackDropDec_val, trackCloseWhenPrev_val]
+  have hq : s.v.pipe = false := by rw [hv]; rfl
+  simp only [stepP, hpc, startP, St.endSample, St.beginSample, St.setP, hp, hq, Bool.false_eq_true, if_false, if_true, trackCloneInc_val, trackDropDec_val, trackCloseWhenPrev_val]
   repeat' split
   all_goals first
     | exact ⟨hv, h1, h2, h3, h4, h5, h6, h7, h8, h9, h10, h11⟩
@@ -149,7 +153,8 @@ theorem stepP_LInv_idle (s : St) (i : Nat) (op : Option POp)  (hpc : s.pp i = .i
 theorem stepP_LInv_acq (s : St) (i : Nat) (op : Option POp) (k v rest) (hpc : s.pp i = .acq k v rest) (h : LInv s) : LInv (stepP s i op) := by
   obtain ⟨hv, h1, h2, h3, h4, h5, h6, h7, h8, h9, h10, h11⟩ := h
   have hp : s.v.plock = true := by rw [hv]; rfl
-  simp only [stepP, hpc, startP, St.endSample, St.beginSample, St.setP, hp, if_true, trackCloneInc_val, trackDropDec_val, trackCloseWhenPrev_val]
+  have hq : s.v.pipe = false := by rw [hv]; rfl
+  simp only [stepP, hpc, startP, St.endSample, St.beginSample, St.setP, hp, hq, Bool.false_eq_true, if_false, if_true, trackCloneInc_val, trackDropDec_val, trackCloseWhenPrev_val]
   repeat' split
   all_goals first
     | exact ⟨hv, h1, h2, h3, h4, h5, h6, h7, h8, h9, h10, h11⟩
@@ -160,7 +165,8 @@ theorem stepP_LInv_acq (s : St) (i : Nat) (op : Option POp) (k v rest) (hpc : s.
 theorem stepP_LInv_chk (s : St) (i : Nat) (op : Option POp) (k v rest) (hpc : s.pp i = .chk k v rest) (h : LInv s) : LInv (stepP s i op) := by
   obtain ⟨hv, h1, h2, h3, h4, h5, h6, h7, h8, h9, h10, h11⟩ := h
   have hp : s.v.plock = true := by rw [hv]; rfl
-  simp only [stepP, hpc, startP, St.endSample, St.beginSample, St.setP, hp, if_true, trackCloneInc_val, trackDropDec_val, trackCloseWhenPrev_val]
+  have hq : s.v.pipe = false := by rw [hv]; rfl
+  simp only [stepP, hpc, startP, St.endSample, St.beginSample, St.setP, hp, hq, Bool.false_eq_true, if_false, if_true, trackCloneInc_val, trackDropDec_val, trackCloseWhenPrev_val]
   repeat' split
   all_goals first
     | exact ⟨hv, h1, h2, h3, h4, h5, h6, h7, h8, h9, h10, h11⟩
@@ -171,7 +177,8 @@ theorem stepP_LInv_chk (s : St) (i : Nat) (op : Option POp) (k v rest) (hpc : s.
 theorem stepP_LInv_push (s : St) (i : Nat) (op : Option POp) (c v rest p) (hpc : s.pp i = .push c v rest p) (h : LInv s) : LInv (stepP s i op) := by
   obtain ⟨hv, h1, h2, h3, h4, h5, h6, h7, h8, h9, h10, h11⟩ := h
   have hp : s.v.plock = true := by rw [hv]; rfl
-  simp only [stepP, hpc, startP, St.endSample, St.beginSample, St.setP, hp, if_true, trackCloneInc_val, trackDropDec_val, trackCloseWhenPrev_val]
+  have hq : s.v.pipe = false := by rw [hv]; rfl
+  simp only [stepP, hpc, startP, St.endSample, St.beginSample, St.setP, hp, hq, Bool.false_eq_true, if_false, if_true, trackCloneInc_val, trackDropDec_val, trackCloseWhenPrev_val]
   repeat' split
   all_goals first
     | exact ⟨hv, h1, h2, h3, h4, h5, h6, h7, h8, h9, h10, h11⟩
@@ -182,7 +189,8 @@ theorem stepP_LInv_push (s : St) (i : Nat) (op : Option POp) (c v rest p) (hpc :
 theorem stepP_LInv_ntf (s : St) (i : Nat) (op : Option POp) (c rest) (hpc : s.pp i = .ntf c rest) (h : LInv s) : LInv (stepP s i op) := by
   obtain ⟨hv, h1, h2, h3, h4, h5, h6, h7, h8, h9, h10, h11⟩ := h
   have hp : s.v.plock = true := by rw [hv]; rfl
-  simp only [stepP, hpc, startP, St.endSample, St.beginSample, St.setP, hp, if_true, trackCloneInc_val, trackDropDec_val, trackCloseWhenPrev_val]
+  have hq : s.v.pipe = false := by rw [hv]; rfl
+  simp only [stepP, hpc, startP, St.endSample, St.beginSample, St.setP, hp, hq, Bool.false_eq_true, if_false, if_true, trackCloneInc_val, trackDropDec_val, trackCloseWhenPrev_val]
   repeat' split
   all_goals first
     | exact ⟨hv, h1, h2, h3, h4, h5, h6, h7, h8, h9, h10, h11⟩
@@ -193,7 +201,8 @@ theorem stepP_LInv_ntf (s : St) (i : Nat) (op : Option POp) (c rest) (hpc : s.pp
 theorem stepP_LInv_tryLock (s : St) (i : Nat) (op : Option POp) (v rest) (hpc : s.pp i = .tryLock v rest) (h : LInv s) : LInv (stepP s i op) := by
   obtain ⟨hv, h1, h2, h3, h4, h5, h6, h7, h8, h9, h10, h11⟩ := h
   have hp : s.v.plock = true := by rw [hv]; rfl
-  simp only [stepP, hpc, startP, St.endSample, St.beginSample, St.setP, hp, if_true, trackCloneInc_val, trackDropDec_val, trackCloseWhenPrev_val]
+  have hq : s.v.pipe = false := by rw [hv]; rfl
+  simp only [stepP, hpc, startP, St.endSample, St.beginSample, St.setP, hp, hq, Bool.false_eq_true, if_false, if_true, trackCloneInc_val, trackDropDec_val, trackCloseWhenPrev_val]
   repeat' split
   all_goals first
     | exact ⟨hv, h1, h2, h3, h4, h5, h6, h7, h8, h9, h10, h11⟩
@@ -204,7 +213,8 @@ theorem stepP_LInv_tryLock (s : St) (i : Nat) (op : Option POp) (v rest) (hpc : 
 theorem stepP_LInv_pop (s : St) (i : Nat) (op : Option POp) (v rest p) (hpc : s.pp i = .pop v rest p) (h : LInv s) : LInv (stepP s i op) := by
   obtain ⟨hv, h1, h2, h3, h4, h5, h6, h7, h8, h9, h10, h11⟩ := h
   have hp : s.v.plock = true := by rw [hv]; rfl
-  simp only [stepP, hpc, startP, St.endSample, St.beginSample, St.setP, hp, if_true, trackCloneInc_val, trackDropDec_val, trackCloseWhenPrev_val]
+  have hq : s.v.pipe = false := by rw [hv]; rfl
+  simp only [stepP, hpc, startP, St.endSample, St.beginSample, St.setP, hp, hq, Bool.false_eq_true, if_false, if_true, trackCloneInc_val, trackDropDec_val, trackCloseWhenPrev_val]
   repeat' split
   all_goals first
     | exact ⟨hv, h1, h2, h3, h4, h5, h6, h7, h8, h9, h10, h11⟩
@@ -215,12 +225,13 @@ theorem stepP_LInv_pop (s : St) (i : Nat) (op : Option POp) (v rest p) (hpc : s.
 theorem stepP_LInv_clone (s : St) (i : Nat) (op : Option POp) (j') (hpc : s.pp i = .clone j') (h : LInv s) : LInv (stepP s i op) := by
   obtain ⟨hv, h1, h2, h3, h4, h5, h6, h7, h8, h9, h10, h11⟩ := h
   have hp : s.v.plock = true := by rw [hv]; rfl
+  have hq : s.v.pipe = false := by rw [hv]; rfl
   have hres := h5 i j' hpc
   have hnm : j' ∉ s.live := fun hm => by have := (h7 j').1 hm; simp [hres, hasHandle] at this
   have hnd : (s.live ++ [j']).Nodup := by
     rw [List.nodup_append]; exact ⟨h8, by simp, by intro a ha b hb; simp at hb; subst hb; exact fun e => hnm (e ▸ ha)⟩
   have hlen : (s.live ++ [j']).length = s.live.length + 1 := by simp
-  simp only [stepP, hpc, startP, St.endSample, St.beginSample, St.setP, hp, if_true, trackCloneInc_val, trackDropDec_val, trackCloseWhenPrev_val]
+  simp only [stepP, hpc, startP, St.endSample, St.beginSample, St.setP, hp, hq, Bool.false_eq_true, if_false, if_true, trackCloneInc_val, trackDropDec_val, trackCloseWhenPrev_val]
   repeat' split
   all_goals first
     | exact ⟨hv, h1, h2, h3, h4, h5, h6, h7, h8, h9, h10, h11⟩
@@ -231,13 +242,14 @@ theorem stepP_LInv_clone (s : St) (i : Nat) (op : Option POp) (j') (hpc : s.pp i
 theorem stepP_LInv_fetchSub (s : St) (i : Nat) (op : Option POp)  (hpc : s.pp i = .fetchSub ) (h : LInv s) : LInv (stepP s i op) := by
   obtain ⟨hv, h1, h2, h3, h4, h5, h6, h7, h8, h9, h10, h11⟩ := h
   have hp : s.v.plock = true := by rw [hv]; rfl
+  have hq : s.v.pipe = false := by rw [hv]; rfl
   have hmem : i ∈ s.live := (h7 i).2 (by simp [hpc, hasHandle])
   have hlen := List.length_erase_of_mem hmem
   have hnd := h8.erase i
   have hpos : 0 < s.live.length := List.length_pos_of_mem hmem
   have hnil : s.live.length = 1 → s.live.erase i = [] := fun h => List.eq_nil_of_length_eq_zero (by omega)
   have hme : ∀ j, j ∈ s.live.erase i ↔ j ≠ i ∧ j ∈ s.live := fun j => h8.mem_erase_iff
-  simp only [stepP, hpc, startP, St.endSample, St.beginSample, St.setP, hp, if_true, trackCloneInc_val, trackDropDec_val, trackCloseWhenPrev_val]
+  simp only [stepP, hpc, startP, St.endSample, St.beginSample, St.setP, hp, hq, Bool.false_eq_true, if_false, if_true, trackCloneInc_val, trackDropDec_val, trackCloseWhenPrev_val]
   by_cases hs : s.senders = 1 <;> simp only [hs, if_true, if_false]
   all_goals first
     | exact ⟨hv, h1, h2, h3, h4, h5, h6, h7, h8, h9, h10, h11⟩
@@ -248,7 +260,8 @@ theorem stepP_LInv_fetchSub (s : St) (i : Nat) (op : Option POp)  (hpc : s.pp i 
 theorem stepP_LInv_stClosed (s : St) (i : Nat) (op : Option POp)  (hpc : s.pp i = .stClosed ) (h : LInv s) : LInv (stepP s i op) := by
   obtain ⟨hv, h1, h2, h3, h4, h5, h6, h7, h8, h9, h10, h11⟩ := h
   have hp : s.v.plock = true := by rw [hv]; rfl
-  simp only [stepP, hpc, startP, St.endSample, St.beginSample, St.setP, hp, if_true, trackCloneInc_val, trackDropDec_val, trackCloseWhenPrev_val]
+  have hq : s.v.pipe = false := by rw [hv]; rfl
+  simp only [stepP, hpc, startP, St.endSample, St.beginSample, St.setP, hp, hq, Bool.false_eq_true, if_false, if_true, trackCloneInc_val, trackDropDec_val, trackCloseWhenPrev_val]
   repeat' split
   all_goals first
     | exact ⟨hv, h1, h2, h3, h4, h5, h6, h7, h8, h9, h10, h11⟩
@@ -259,7 +272,8 @@ theorem stepP_LInv_stClosed (s : St) (i : Nat) (op : Option POp)  (hpc : s.pp i 
 theorem stepP_LInv_ntfW (s : St) (i : Nat) (op : Option POp)  (hpc : s.pp i = .ntfW ) (h : LInv s) : LInv (stepP s i op) := by
   obtain ⟨hv, h1, h2, h3, h4, h5, h6, h7, h8, h9, h10, h11⟩ := h
   have hp : s.v.plock = true := by rw [hv]; rfl
-  simp only [stepP, hpc, startP, St.endSample, St.beginSample, St.setP, hp, if_true, trackCloneInc_val, trackDropDec_val, trackCloseWhenPrev_val]
+  have hq : s.v.pipe = false := by rw [hv]; rfl
+  simp only [stepP, hpc, startP, St.endSample, St.beginSample, St.setP, hp, hq, Bool.false_eq_true, if_false, if_true, trackCloneInc_val, trackDropDec_val, trackCloseWhenPrev_val]
   repeat' split
   all_goals first
     | exact ⟨hv, h1, h2, h3, h4, h5, h6, h7, h8, h9, h10, h11⟩
@@ -454,6 +468,8 @@ theorem step_LInv (s : St) (l : Label) (h : LInv s) : LInv (step s l) := by
   | prod i op => exact stepP_LInv s i op h
   | cons st => exact stepC_LInv s st h
   | stop st => exact stepS_LInv s st h
+  | rcv op => have hq : s.v.pipe = false := by rw [h.var]; rfl
+              simpa [step, stepR, hq] using h
 
 theorem LInv.init (cap W : Nat) : LInv (St.init Variant.cur cap W 0) := by
   refine ⟨rfl, ?_, ?_, ?_, ?_, ?_, ?_, ?_, ?_, ?_, ?_, ?_⟩
@@ -484,7 +500,8 @@ theorem stepP_ring_none (s : St) (i : Nat) (op : Option POp)  (hpc : s.pp i = .n
     (h : TInv s) : RingInv (stepP s i op).ring (stepP s i op).puView (stepP s i op).poView := by
   obtain ⟨⟨hv, h1, h2, h3, h4, h5, h6, h7, h8, h9, h10, h11⟩, hring⟩ := h
   have hp : s.v.plock = true := by rw [hv]; rfl
-  simp only [stepP, hpc, startP, St.endSample, St.beginSample, St.setP, hp, if_true, trackCloneInc_val, trackDropDec_val, trackCloseWhenPrev_val]
+  have hq : s.v.pipe = false := by rw [hv]; rfl
+  simp only [stepP, hpc, startP, St.endSample, St.beginSample, St.setP, hp, hq, Bool.false_eq_true, if_false, if_true, trackCloneInc_val, trackDropDec_val, trackCloseWhenPrev_val]
   repeat' split
   all_goals grind [St.puView, St.poView, pushView, popViewP, popViewC, upd, holdsPush, holdsPopP, holdsPopC, startPush', startPop']
 
@@ -492,7 +509,8 @@ theorem stepP_ring_reserved (s : St) (i : Nat) (op : Option POp)  (hpc : s.pp i 
     (h : TInv s) : RingInv (stepP s i op).ring (stepP s i op).puView (stepP s i op).poView := by
   obtain ⟨⟨hv, h1, h2, h3, h4, h5, h6, h7, h8, h9, h10, h11⟩, hring⟩ := h
   have hp : s.v.plock = true := by rw [hv]; rfl
-  simp only [stepP, hpc, startP, St.endSample, St.beginSample, St.setP, hp, if_true, trackCloneInc_val, trackDropDec_val, trackCloseWhenPrev_val]
+  have hq : s.v.pipe = false := by rw [hv]; rfl
+  simp only [stepP, hpc, startP, St.endSample, St.beginSample, St.setP, hp, hq, Bool.false_eq_true, if_false, if_true, trackCloneInc_val, trackDropDec_val, trackCloseWhenPrev_val]
   repeat' split
   all_goals grind [St.puView, St.poView, pushView, popViewP, popViewC, upd, holdsPush, holdsPopP, holdsPopC, startPush', startPop']
 
@@ -500,7 +518,8 @@ theorem stepP_ring_gone (s : St) (i : Nat) (op : Option POp)  (hpc : s.pp i = .g
     (h : TInv s) : RingInv (stepP s i op).ring (stepP s i op).puView (stepP s i op).poView := by
   obtain ⟨⟨hv, h1, h2, h3, h4, h5, h6, h7, h8, h9, h10, h11⟩, hring⟩ := h
   have hp : s.v.plock = true := by rw [hv]; rfl
-  simp only [stepP, hpc, startP, St.endSample, St.beginSample, St.setP, hp, if_true, trackCloneInc_val, trackDropDec_val, trackCloseWhenPrev_val]
+  have hq : s.v.pipe = false := by rw [hv]; rfl
+  simp only [stepP, hpc, startP, St.endSample, St.beginSample, St.setP, hp, hq, Bool.false_eq_true, if_false, if_true, trackCloneInc_val, trackDropDec_val, trackCloseWhenPrev_val]
   repeat' split
   all_goals grind [St.puView, St.poView, pushView, popViewP, popViewC, upd, holdsPush, holdsPopP, holdsPopC, startPush', startPop']
 
@@ -509,6 +528,7 @@ theorem stepP_ring_idle (s : St) (i : Nat) (op : Option POp)  (hpc : s.pp i = .i
   have hL := h.l
   have hring := h.ring
   have hp : s.v.plock = true := by rw [hL.var]; rfl
+  have hq : s.v.pipe = false := by rw [hL.var]; rfl
   have hn1 : holdsPush (s.pp i) = false := by simp [hpc, holdsPush]
   have hn2 : holdsPopP (s.pp i) = false := by simp [hpc, holdsPopP]
   simp only [stepP, hpc]
@@ -521,11 +541,11 @@ theorem stepP_ring_idle (s : St) (i : Nat) (op : Option POp)  (hpc : s.pp i = .i
       | nil => exact hring
       | cons v rest =>
         have := views_upd_nolock s hL i (.acq .send v rest) s.pp hn1 hn2
-        simp only [startP, St.beginSample, hp, if_true, St.setP, St.puView_eq, St.poView_eq] at hring ⊢
+        simp only [startP, St.beginSample, hp, hq, Bool.false_eq_true, if_false, if_true, St.setP, St.puView_eq, St.poView_eq] at hring ⊢
         rw [this.1, this.2]; exact hring
     | trySend v =>
       have := views_upd_nolock s hL i (.acq .try_ v []) s.pp hn1 hn2
-      simp only [startP, St.beginSample, hp, if_true, St.setP, St.puView_eq, St.poView_eq] at hring ⊢
+      simp only [startP, St.beginSample, hp, hq, Bool.false_eq_true, if_false, if_true, St.setP, St.puView_eq, St.poView_eq] at hring ⊢
       rw [this.1, this.2]; exact hring
     | cloneTo j =>
       simp only [startP]
@@ -538,14 +558,15 @@ theorem stepP_ring_idle (s : St) (i : Nat) (op : Option POp)  (hpc : s.pp i = .i
       · exact hring
     | dropSrc =>
       have := views_upd_nolock s hL i .fetchSub s.pp hn1 hn2
-      simp only [startP, St.setP, St.puView_eq, St.poView_eq] at hring ⊢
+      simp only [startP, hq, Bool.false_eq_true, if_false, St.setP, St.puView_eq, St.poView_eq] at hring ⊢
       rw [this.1, this.2]; exact hring
 
 theorem stepP_ring_acq (s : St) (i : Nat) (op : Option POp) (k v rest) (hpc : s.pp i = .acq k v rest)
     (h : TInv s) : RingInv (stepP s i op).ring (stepP s i op).puView (stepP s i op).poView := by
   obtain ⟨⟨hv, h1, h2, h3, h4, h5, h6, h7, h8, h9, h10, h11⟩, hring⟩ := h
   have hp : s.v.plock = true := by rw [hv]; rfl
-  simp only [stepP, hpc, startP, St.endSample, St.beginSample, St.setP, hp, if_true, trackCloneInc_val, trackDropDec_val, trackCloseWhenPrev_val]
+  have hq : s.v.pipe = false := by rw [hv]; rfl
+  simp only [stepP, hpc, startP, St.endSample, St.beginSample, St.setP, hp, hq, Bool.false_eq_true, if_false, if_true, trackCloneInc_val, trackDropDec_val, trackCloseWhenPrev_val]
   repeat' split
   all_goals grind [St.puView, St.poView, pushView, popViewP, popViewC, upd, holdsPush, holdsPopP, holdsPopC, startPush', startPop']
 
@@ -553,7 +574,8 @@ theorem stepP_ring_chk (s : St) (i : Nat) (op : Option POp) (k v rest) (hpc : s.
     (h : TInv s) : RingInv (stepP s i op).ring (stepP s i op).puView (stepP s i op).poView := by
   obtain ⟨⟨hv, h1, h2, h3, h4, h5, h6, h7, h8, h9, h10, h11⟩, hring⟩ := h
   have hp : s.v.plock = true := by rw [hv]; rfl
-  simp only [stepP, hpc, startP, St.endSample, St.beginSample, St.setP, hp, if_true, trackCloneInc_val, trackDropDec_val, trackCloseWhenPrev_val]
+  have hq : s.v.pipe = false := by rw [hv]; rfl
+  simp only [stepP, hpc, startP, St.endSample, St.beginSample, St.setP, hp, hq, Bool.false_eq_true, if_false, if_true, trackCloneInc_val, trackDropDec_val, trackCloseWhenPrev_val]
   repeat' split
   all_goals grind [St.puView, St.poView, pushView, popViewP, popViewC, upd, holdsPush, holdsPopP, holdsPopC, startPush', startPop']
 
@@ -561,11 +583,12 @@ theorem stepP_ring_push (s : St) (i : Nat) (op : Option POp) (c v rest p) (hpc :
     (h : TInv s) : RingInv (stepP s i op).ring (stepP s i op).puView (stepP s i op).poView := by
   obtain ⟨⟨hv, h1, h2, h3, h4, h5, h6, h7, h8, h9, h10, h11⟩, hring⟩ := h
   have hp : s.v.plock = true := by rw [hv]; rfl
+  have hq : s.v.pipe = false := by rw [hv]; rfl
   have hpl : s.plock = some i := (h1 i).1 (by simp [hpc, holdsPush])
   have hview : s.puView = some (p, (i, v)) := by simp [St.puView, hpl, hpc, pushView]
   rw [hview] at hring
   obtain ⟨k1, k2, k3⟩ := pushStep_inv hring
-  simp only [stepP, hpc, startP, St.endSample, St.beginSample, St.setP, hp, if_true, trackCloneInc_val, trackDropDec_val, trackCloseWhenPrev_val]
+  simp only [stepP, hpc, startP, St.endSample, St.beginSample, St.setP, hp, hq, Bool.false_eq_true, if_false, if_true, trackCloneInc_val, trackDropDec_val, trackCloseWhenPrev_val]
   repeat' split
   all_goals grind [St.puView, St.poView, pushView, popViewP, popViewC, upd, holdsPush, holdsPopP, holdsPopC, startPush', startPop']
 
@@ -573,7 +596,8 @@ theorem stepP_ring_ntf (s : St) (i : Nat) (op : Option POp) (c rest) (hpc : s.pp
     (h : TInv s) : RingInv (stepP s i op).ring (stepP s i op).puView (stepP s i op).poView := by
   obtain ⟨⟨hv, h1, h2, h3, h4, h5, h6, h7, h8, h9, h10, h11⟩, hring⟩ := h
   have hp : s.v.plock = true := by rw [hv]; rfl
-  simp only [stepP, hpc, startP, St.endSample, St.beginSample, St.setP, hp, if_true, trackCloneInc_val, trackDropDec_val, trackCloseWhenPrev_val]
+  have hq : s.v.pipe = false := by rw [hv]; rfl
+  simp only [stepP, hpc, startP, St.endSample, St.beginSample, St.setP, hp, hq, Bool.false_eq_true, if_false, if_true, trackCloneInc_val, trackDropDec_val, trackCloseWhenPrev_val]
   repeat' split
   all_goals grind [St.puView, St.poView, pushView, popViewP, popViewC, upd, holdsPush, holdsPopP, holdsPopC, startPush', startPop']
 
@@ -581,7 +605,8 @@ theorem stepP_ring_tryLock (s : St) (i : Nat) (op : Option POp) (v rest) (hpc : 
     (h : TInv s) : RingInv (stepP s i op).ring (stepP s i op).puView (stepP s i op).poView := by
   obtain ⟨⟨hv, h1, h2, h3, h4, h5, h6, h7, h8, h9, h10, h11⟩, hring⟩ := h
   have hp : s.v.plock = true := by rw [hv]; rfl
-  simp only [stepP, hpc, startP, St.endSample, St.beginSample, St.setP, hp, if_true, trackCloneInc_val, trackDropDec_val, trackCloseWhenPrev_val]
+  have hq : s.v.pipe = false := by rw [hv]; rfl
+  simp only [stepP, hpc, startP, St.endSample, St.beginSample, St.setP, hp, hq, Bool.false_eq_true, if_false, if_true, trackCloneInc_val, trackDropDec_val, trackCloseWhenPrev_val]
   repeat' split
   all_goals grind [St.puView, St.poView, pushView, popViewP, popViewC, upd, holdsPush, holdsPopP, holdsPopC, startPush', startPop']
 
@@ -589,13 +614,14 @@ theorem stepP_ring_pop (s : St) (i : Nat) (op : Option POp) (v rest p) (hpc : s.
     (h : TInv s) : RingInv (stepP s i op).ring (stepP s i op).puView (stepP s i op).poView := by
   obtain ⟨⟨hv, h1, h2, h3, h4, h5, h6, h7, h8, h9, h10, h11⟩, hring⟩ := h
   have hp : s.v.plock = true := by rw [hv]; rfl
+  have hq : s.v.pipe = false := by rw [hv]; rfl
   have hpl : s.plock = some i := (h1 i).1 (by simp [hpc, holdsPush])
   have hpo : s.poplock = some (.prod i) := (h2 i).1 (by simp [hpc, holdsPopP])
   have hview : s.poView = some p := by simp [St.poView, hpo, hpc, popViewP]
   have hview2 : s.puView = none := by simp [St.puView, hpl, hpc, pushView]
   rw [hview, hview2] at hring
   obtain ⟨k1, k2, k3⟩ := popStep_inv hring
-  simp only [stepP, hpc, startP, St.endSample, St.beginSample, St.setP, hp, if_true, trackCloneInc_val, trackDropDec_val, trackCloseWhenPrev_val]
+  simp only [stepP, hpc, startP, St.endSample, St.beginSample, St.setP, hp, hq, Bool.false_eq_true, if_false, if_true, trackCloneInc_val, trackDropDec_val, trackCloseWhenPrev_val]
   repeat' split
   all_goals grind [St.puView, St.poView, pushView, popViewP, popViewC, upd, holdsPush, holdsPopP, holdsPopC, startPush', startPop']
 
@@ -628,7 +654,8 @@ theorem stepP_ring_stClosed (s : St) (i : Nat) (op : Option POp)  (hpc : s.pp i 
     (h : TInv s) : RingInv (stepP s i op).ring (stepP s i op).puView (stepP s i op).poView := by
   obtain ⟨⟨hv, h1, h2, h3, h4, h5, h6, h7, h8, h9, h10, h11⟩, hring⟩ := h
   have hp : s.v.plock = true := by rw [hv]; rfl
-  simp only [stepP, hpc, startP, St.endSample, St.beginSample, St.setP, hp, if_true, trackCloneInc_val, trackDropDec_val, trackCloseWhenPrev_val]
+  have hq : s.v.pipe = false := by rw [hv]; rfl
+  simp only [stepP, hpc, startP, St.endSample, St.beginSample, St.setP, hp, hq, Bool.false_eq_true, if_false, if_true, trackCloneInc_val, trackDropDec_val, trackCloseWhenPrev_val]
   repeat' split
   all_goals grind [St.puView, St.poView, pushView, popViewP, popViewC, upd, holdsPush, holdsPopP, holdsPopC, startPush', startPop']
 
@@ -636,7 +663,8 @@ theorem stepP_ring_ntfW (s : St) (i : Nat) (op : Option POp)  (hpc : s.pp i = .n
     (h : TInv s) : RingInv (stepP s i op).ring (stepP s i op).puView (stepP s i op).poView := by
   obtain ⟨⟨hv, h1, h2, h3, h4, h5, h6, h7, h8, h9, h10, h11⟩, hring⟩ := h
   have hp : s.v.plock = true := by rw [hv]; rfl
-  simp only [stepP, hpc, startP, St.endSample, St.beginSample, St.setP, hp, if_true, trackCloneInc_val, trackDropDec_val, trackCloseWhenPrev_val]
+  have hq : s.v.pipe = false := by rw [hv]; rfl
+  simp only [stepP, hpc, startP, St.endSample, St.beginSample, St.setP, hp, hq, Bool.false_eq_true, if_false, if_true, trackCloneInc_val, trackDropDec_val, trackCloseWhenPrev_val]
   repeat' split
   all_goals grind [St.puView, St.poView, pushView, popViewP, popViewC, upd, holdsPush, holdsPopP, holdsPopC, startPush', startPop']
 
@@ -794,6 +822,8 @@ theorem step_TInv (s : St) (l : Label) (h : TInv s) : TInv (step s l) := by
   | prod i op => exact stepP_ring s i op h
   | cons st => exact stepC_ring s st h
   | stop st => exact stepS_ring s st h
+  | rcv op => have hq : s.v.pipe = false := by rw [h.l.var]; rfl
+              simpa [step, stepR, hq] using h.ring
 
 theorem TInv.init (cap k : Nat) (h0 : 0 < cap) (h1 : cap < 2 ^ k) : TInv (St.init Variant.cur cap (2 ^ k) 0) :=
   ⟨LInv.init cap (2 ^ k), RingInv.init cap k h0 h1⟩
@@ -858,6 +888,17 @@ theorem step_frame (s : St) (l : Label) :
     simp only [step, stepS]
     repeat' split
     all_goals simp
+  | rcv op =>
+    cases hpc : s.rp with
+    | pop cl p =>
+      have := popStep_frame s.ring p
+      simp only [step, stepR, hpc]
+      repeat' split
+      all_goals grind
+    | _ =>
+      simp only [step, stepR, hpc]
+      repeat' split
+      all_goals simp
 
 theorem run_frame (s : St) (ls : List Label) :
     (run s ls).ring.cap = s.ring.cap ∧ (run s ls).ring.W = s.ring.W ∧ s.ring.tcount ≤ (run s ls).ring.tcount := by
@@ -971,6 +1012,17 @@ theorem step_GInv (s : St) (l : Label) (h : GInv s) : GInv (step s l) := by
     simp only [step, stepS]
     repeat' split
     all_goals exact h
+  | rcv op =>
+    cases hpc : s.rp with
+    | pop cl p =>
+      have := popStep_outs s.ring p
+      simp only [step, stepR, hpc]
+      repeat' split
+      all_goals grind [Interleave.left]
+    | _ =>
+      simp only [step, stepR, hpc]
+      repeat' split
+      all_goals exact h
 
 theorem GInv.init (v : Variant) (cap W : Nat) : GInv (St.init v cap W 0) := by
   simp only [GInv, St.init, Ring.init]; exact Interleave.nil
@@ -1018,8 +1070,9 @@ theorem stepP_EInv_none (s : St) (i : Nat) (op : Option POp)  (hpc : s.pp i = .n
     (hT : TInv s) (h : EInv s) : EInv (stepP s i op) := by
   obtain ⟨e1, e2, e3, e4, e5, e6, e7⟩ := h
   have hp : s.v.plock = true := by rw [hT.l.var]; rfl
+  have hq : s.v.pipe = false := by rw [hT.l.var]; rfl
   have hnh := closed_no_holder s hT.l
-  simp only [stepP, hpc, startP, St.endSample, St.beginSample, St.setP, hp, if_true]
+  simp only [stepP, hpc, startP, St.endSample, St.beginSample, St.setP, hp, hq, Bool.false_eq_true, if_false, if_true]
   repeat' split
   all_goals first
     | exact ⟨e1, e2, e3, e4, e5, e6, e7⟩
@@ -1029,8 +1082,9 @@ theorem stepP_EInv_reserved (s : St) (i : Nat) (op : Option POp)  (hpc : s.pp i 
     (hT : TInv s) (h : EInv s) : EInv (stepP s i op) := by
   obtain ⟨e1, e2, e3, e4, e5, e6, e7⟩ := h
   have hp : s.v.plock = true := by rw [hT.l.var]; rfl
+  have hq : s.v.pipe = false := by rw [hT.l.var]; rfl
   have hnh := closed_no_holder s hT.l
-  simp only [stepP, hpc, startP, St.endSample, St.beginSample, St.setP, hp, if_true]
+  simp only [stepP, hpc, startP, St.endSample, St.beginSample, St.setP, hp, hq, Bool.false_eq_true, if_false, if_true]
   repeat' split
   all_goals first
     | exact ⟨e1, e2, e3, e4, e5, e6, e7⟩
@@ -1040,8 +1094,9 @@ theorem stepP_EInv_gone (s : St) (i : Nat) (op : Option POp)  (hpc : s.pp i = .g
     (hT : TInv s) (h : EInv s) : EInv (stepP s i op) := by
   obtain ⟨e1, e2, e3, e4, e5, e6, e7⟩ := h
   have hp : s.v.plock = true := by rw [hT.l.var]; rfl
+  have hq : s.v.pipe = false := by rw [hT.l.var]; rfl
   have hnh := closed_no_holder s hT.l
-  simp only [stepP, hpc, startP, St.endSample, St.beginSample, St.setP, hp, if_true]
+  simp only [stepP, hpc, startP, St.endSample, St.beginSample, St.setP, hp, hq, Bool.false_eq_true, if_false, if_true]
   repeat' split
   all_goals first
     | exact ⟨e1, e2, e3, e4, e5, e6, e7⟩
@@ -1051,8 +1106,9 @@ theorem stepP_EInv_idle (s : St) (i : Nat) (op : Option POp)  (hpc : s.pp i = .i
     (hT : TInv s) (h : EInv s) : EInv (stepP s i op) := by
   obtain ⟨e1, e2, e3, e4, e5, e6, e7⟩ := h
   have hp : s.v.plock = true := by rw [hT.l.var]; rfl
+  have hq : s.v.pipe = false := by rw [hT.l.var]; rfl
   have hnh := closed_no_holder s hT.l
-  simp only [stepP, hpc, startP, St.endSample, St.beginSample, St.setP, hp, if_true]
+  simp only [stepP, hpc, startP, St.endSample, St.beginSample, St.setP, hp, hq, Bool.false_eq_true, if_false, if_true]
   repeat' split
   all_goals first
     | exact ⟨e1, e2, e3, e4, e5, e6, e7⟩
@@ -1062,8 +1118,9 @@ theorem stepP_EInv_acq (s : St) (i : Nat) (op : Option POp) (k v rest) (hpc : s.
     (hT : TInv s) (h : EInv s) : EInv (stepP s i op) := by
   obtain ⟨e1, e2, e3, e4, e5, e6, e7⟩ := h
   have hp : s.v.plock = true := by rw [hT.l.var]; rfl
+  have hq : s.v.pipe = false := by rw [hT.l.var]; rfl
   have hnh := closed_no_holder s hT.l
-  simp only [stepP, hpc, startP, St.endSample, St.beginSample, St.setP, hp, if_true]
+  simp only [stepP, hpc, startP, St.endSample, St.beginSample, St.setP, hp, hq, Bool.false_eq_true, if_false, if_true]
   repeat' split
   all_goals first
     | exact ⟨e1, e2, e3, e4, e5, e6, e7⟩
@@ -1073,8 +1130,9 @@ theorem stepP_EInv_chk (s : St) (i : Nat) (op : Option POp) (k v rest) (hpc : s.
     (hT : TInv s) (h : EInv s) : EInv (stepP s i op) := by
   obtain ⟨e1, e2, e3, e4, e5, e6, e7⟩ := h
   have hp : s.v.plock = true := by rw [hT.l.var]; rfl
+  have hq : s.v.pipe = false := by rw [hT.l.var]; rfl
   have hnh := closed_no_holder s hT.l
-  simp only [stepP, hpc, startP, St.endSample, St.beginSample, St.setP, hp, if_true]
+  simp only [stepP, hpc, startP, St.endSample, St.beginSample, St.setP, hp, hq, Bool.false_eq_true, if_false, if_true]
   repeat' split
   all_goals first
     | exact ⟨e1, e2, e3, e4, e5, e6, e7⟩
@@ -1084,9 +1142,10 @@ theorem stepP_EInv_push (s : St) (i : Nat) (op : Option POp) (c v rest p) (hpc :
     (hT : TInv s) (h : EInv s) : EInv (stepP s i op) := by
   obtain ⟨e1, e2, e3, e4, e5, e6, e7⟩ := h
   have hp : s.v.plock = true := by rw [hT.l.var]; rfl
+  have hq : s.v.pipe = false := by rw [hT.l.var]; rfl
   have hnh := closed_no_holder s hT.l
   have hfr := pushStep_frame s.ring (i, v) p
-  simp only [stepP, hpc, startP, St.endSample, St.beginSample, St.setP, hp, if_true]
+  simp only [stepP, hpc, startP, St.endSample, St.beginSample, St.setP, hp, hq, Bool.false_eq_true, if_false, if_true]
   repeat' split
   all_goals first
     | exact ⟨e1, e2, e3, e4, e5, e6, e7⟩
@@ -1096,8 +1155,9 @@ theorem stepP_EInv_ntf (s : St) (i : Nat) (op : Option POp) (c rest) (hpc : s.pp
     (hT : TInv s) (h : EInv s) : EInv (stepP s i op) := by
   obtain ⟨e1, e2, e3, e4, e5, e6, e7⟩ := h
   have hp : s.v.plock = true := by rw [hT.l.var]; rfl
+  have hq : s.v.pipe = false := by rw [hT.l.var]; rfl
   have hnh := closed_no_holder s hT.l
-  simp only [stepP, hpc, startP, St.endSample, St.beginSample, St.setP, hp, if_true]
+  simp only [stepP, hpc, startP, St.endSample, St.beginSample, St.setP, hp, hq, Bool.false_eq_true, if_false, if_true]
   repeat' split
   all_goals first
     | exact ⟨e1, e2, e3, e4, e5, e6, e7⟩
@@ -1107,8 +1167,9 @@ theorem stepP_EInv_tryLock (s : St) (i : Nat) (op : Option POp) (v rest) (hpc : 
     (hT : TInv s) (h : EInv s) : EInv (stepP s i op) := by
   obtain ⟨e1, e2, e3, e4, e5, e6, e7⟩ := h
   have hp : s.v.plock = true := by rw [hT.l.var]; rfl
+  have hq : s.v.pipe = false := by rw [hT.l.var]; rfl
   have hnh := closed_no_holder s hT.l
-  simp only [stepP, hpc, startP, St.endSample, St.beginSample, St.setP, hp, if_true]
+  simp only [stepP, hpc, startP, St.endSample, St.beginSample, St.setP, hp, hq, Bool.false_eq_true, if_false, if_true]
   repeat' split
   all_goals first
     | exact ⟨e1, e2, e3, e4, e5, e6, e7⟩
@@ -1118,6 +1179,7 @@ theorem stepP_EInv_pop (s : St) (i : Nat) (op : Option POp) (v rest p) (hpc : s.
     (hT : TInv s) (h : EInv s) : EInv (stepP s i op) := by
   obtain ⟨e1, e2, e3, e4, e5, e6, e7⟩ := h
   have hp : s.v.plock = true := by rw [hT.l.var]; rfl
+  have hq : s.v.pipe = false := by rw [hT.l.var]; rfl
   have hnh := closed_no_holder s hT.l
   have hpl : s.plock = some i := (hT.l.plockIff i).1 (by simp [hpc, holdsPush])
   have hpo : s.poplock = some (.prod i) := (hT.l.poplockP i).1 (by simp [hpc, holdsPopP])
@@ -1125,7 +1187,7 @@ theorem stepP_EInv_pop (s : St) (i : Nat) (op : Option POp) (v rest p) (hpc : s.
   have hring := hT.ring
   rw [hview] at hring
   have hfr := popStep_frame s.ring p
-  simp only [stepP, hpc, startP, St.endSample, St.beginSample, St.setP, hp, if_true]
+  simp only [stepP, hpc, startP, St.endSample, St.beginSample, St.setP, hp, hq, Bool.false_eq_true, if_false, if_true]
   repeat' split
   all_goals first
     | exact ⟨e1, e2, e3, e4, e5, e6, e7⟩
@@ -1135,8 +1197,9 @@ theorem stepP_EInv_clone (s : St) (i : Nat) (op : Option POp) (j') (hpc : s.pp i
     (hT : TInv s) (h : EInv s) : EInv (stepP s i op) := by
   obtain ⟨e1, e2, e3, e4, e5, e6, e7⟩ := h
   have hp : s.v.plock = true := by rw [hT.l.var]; rfl
+  have hq : s.v.pipe = false := by rw [hT.l.var]; rfl
   have hnh := closed_no_holder s hT.l
-  simp only [stepP, hpc, startP, St.endSample, St.beginSample, St.setP, hp, if_true]
+  simp only [stepP, hpc, startP, St.endSample, St.beginSample, St.setP, hp, hq, Bool.false_eq_true, if_false, if_true]
   repeat' split
   all_goals first
     | exact ⟨e1, e2, e3, e4, e5, e6, e7⟩
@@ -1146,8 +1209,9 @@ theorem stepP_EInv_fetchSub (s : St) (i : Nat) (op : Option POp)  (hpc : s.pp i 
     (hT : TInv s) (h : EInv s) : EInv (stepP s i op) := by
   obtain ⟨e1, e2, e3, e4, e5, e6, e7⟩ := h
   have hp : s.v.plock = true := by rw [hT.l.var]; rfl
+  have hq : s.v.pipe = false := by rw [hT.l.var]; rfl
   have hnh := closed_no_holder s hT.l
-  simp only [stepP, hpc, startP, St.endSample, St.beginSample, St.setP, hp, if_true]
+  simp only [stepP, hpc, startP, St.endSample, St.beginSample, St.setP, hp, hq, Bool.false_eq_true, if_false, if_true]
   repeat' split
   all_goals first
     | exact ⟨e1, e2, e3, e4, e5, e6, e7⟩
@@ -1157,8 +1221,9 @@ theorem stepP_EInv_stClosed (s : St) (i : Nat) (op : Option POp)  (hpc : s.pp i 
     (hT : TInv s) (h : EInv s) : EInv (stepP s i op) := by
   obtain ⟨e1, e2, e3, e4, e5, e6, e7⟩ := h
   have hp : s.v.plock = true := by rw [hT.l.var]; rfl
+  have hq : s.v.pipe = false := by rw [hT.l.var]; rfl
   have hnh := closed_no_holder s hT.l
-  simp only [stepP, hpc, startP, St.endSample, St.beginSample, St.setP, hp, if_true]
+  simp only [stepP, hpc, startP, St.endSample, St.beginSample, St.setP, hp, hq, Bool.false_eq_true, if_false, if_true]
   repeat' split
   all_goals first
     | exact ⟨e1, e2, e3, e4, e5, e6, e7⟩
@@ -1168,8 +1233,9 @@ theorem stepP_EInv_ntfW (s : St) (i : Nat) (op : Option POp)  (hpc : s.pp i = .n
     (hT : TInv s) (h : EInv s) : EInv (stepP s i op) := by
   obtain ⟨e1, e2, e3, e4, e5, e6, e7⟩ := h
   have hp : s.v.plock = true := by rw [hT.l.var]; rfl
+  have hq : s.v.pipe = false := by rw [hT.l.var]; rfl
   have hnh := closed_no_holder s hT.l
-  simp only [stepP, hpc, startP, St.endSample, St.beginSample, St.setP, hp, if_true]
+  simp only [stepP, hpc, startP, St.endSample, St.beginSample, St.setP, hp, hq, Bool.false_eq_true, if_false, if_true]
   repeat' split
   all_goals first
     | exact ⟨e1, e2, e3, e4, e5, e6, e7⟩
@@ -1368,6 +1434,8 @@ theorem step_FInv (s : St) (l : Label) (h : FInv s) : FInv (step s l) := by
   | prod i op => exact stepP_EInv s i op h.t h.e
   | cons st => exact stepC_EInv s st h.t h.e
   | stop st => exact stepS_EInv s st h.e
+  | rcv op => have hq : s.v.pipe = false := by rw [h.t.l.var]; rfl
+              simpa [step, stepR, hq] using h.e
 
 theorem FInv.init (cap k : Nat) (h0 : 0 < cap) (h1 : cap < 2 ^ k) : FInv (St.init Variant.cur cap (2 ^ k) 0) :=
   ⟨TInv.init cap k h0 h1, EInv.init cap (2 ^ k)⟩
@@ -1412,7 +1480,8 @@ theorem stepP_NInv_none (s : St) (i : Nat) (op : Option POp)  (hpc : s.pp i = .n
     (hL : LInv s) (h : NInv s) : NInv (stepP s i op) := by
   obtain ⟨n1, n2, n3, n4, n5, n6⟩ := h
   have hp : s.v.plock = true := by rw [hL.var]; rfl
-  simp only [stepP, hpc, startP, St.endSample, St.beginSample, St.setP, hp, if_true]
+  have hq : s.v.pipe = false := by rw [hL.var]; rfl
+  simp only [stepP, hpc, startP, St.endSample, St.beginSample, St.setP, hp, hq, Bool.false_eq_true, if_false, if_true]
   repeat' split
   all_goals first
     | exact ⟨n1, n2, n3, n4, n5, n6⟩
@@ -1422,7 +1491,8 @@ theorem stepP_NInv_reserved (s : St) (i : Nat) (op : Option POp)  (hpc : s.pp i 
     (hL : LInv s) (h : NInv s) : NInv (stepP s i op) := by
   obtain ⟨n1, n2, n3, n4, n5, n6⟩ := h
   have hp : s.v.plock = true := by rw [hL.var]; rfl
-  simp only [stepP, hpc, startP, St.endSample, St.beginSample, St.setP, hp, if_true]
+  have hq : s.v.pipe = false := by rw [hL.var]; rfl
+  simp only [stepP, hpc, startP, St.endSample, St.beginSample, St.setP, hp, hq, Bool.false_eq_true, if_false, if_true]
   repeat' split
   all_goals first
     | exact ⟨n1, n2, n3, n4, n5, n6⟩
@@ -1432,7 +1502,8 @@ theorem stepP_NInv_gone (s : St) (i : Nat) (op : Option POp)  (hpc : s.pp i = .g
     (hL : LInv s) (h : NInv s) : NInv (stepP s i op) := by
   obtain ⟨n1, n2, n3, n4, n5, n6⟩ := h
   have hp : s.v.plock = true := by rw [hL.var]; rfl
-  simp only [stepP, hpc, startP, St.endSample, St.beginSample, St.setP, hp, if_true]
+  have hq : s.v.pipe = false := by rw [hL.var]; rfl
+  simp only [stepP, hpc, startP, St.endSample, St.beginSample, St.setP, hp, hq, Bool.false_eq_true, if_false, if_true]
   repeat' split
   all_goals first
     | exact ⟨n1, n2, n3, n4, n5, n6⟩
@@ -1442,7 +1513,8 @@ theorem stepP_NInv_idle (s : St) (i : Nat) (op : Option POp)  (hpc : s.pp i = .i
     (hL : LInv s) (h : NInv s) : NInv (stepP s i op) := by
   obtain ⟨n1, n2, n3, n4, n5, n6⟩ := h
   have hp : s.v.plock = true := by rw [hL.var]; rfl
-  simp only [stepP, hpc, startP, St.endSample, St.beginSample, St.setP, hp, if_true]
+  have hq : s.v.pipe = false := by rw [hL.var]; rfl
+  simp only [stepP, hpc, startP, St.endSample, St.beginSample, St.setP, hp, hq, Bool.false_eq_true, if_false, if_true]
   repeat' split
   all_goals first
     | exact ⟨n1, n2, n3, n4, n5, n6⟩
@@ -1452,7 +1524,8 @@ theorem stepP_NInv_acq (s : St) (i : Nat) (op : Option POp) (k v rest) (hpc : s.
     (hL : LInv s) (h : NInv s) : NInv (stepP s i op) := by
   obtain ⟨n1, n2, n3, n4, n5, n6⟩ := h
   have hp : s.v.plock = true := by rw [hL.var]; rfl
-  simp only [stepP, hpc, startP, St.endSample, St.beginSample, St.setP, hp, if_true]
+  have hq : s.v.pipe = false := by rw [hL.var]; rfl
+  simp only [stepP, hpc, startP, St.endSample, St.beginSample, St.setP, hp, hq, Bool.false_eq_true, if_false, if_true]
   repeat' split
   all_goals first
     | exact ⟨n1, n2, n3, n4, n5, n6⟩
@@ -1462,7 +1535,8 @@ theorem stepP_NInv_chk (s : St) (i : Nat) (op : Option POp) (k v rest) (hpc : s.
     (hL : LInv s) (h : NInv s) : NInv (stepP s i op) := by
   obtain ⟨n1, n2, n3, n4, n5, n6⟩ := h
   have hp : s.v.plock = true := by rw [hL.var]; rfl
-  simp only [stepP, hpc, startP, St.endSample, St.beginSample, St.setP, hp, if_true]
+  have hq : s.v.pipe = false := by rw [hL.var]; rfl
+  simp only [stepP, hpc, startP, St.endSample, St.beginSample, St.setP, hp, hq, Bool.false_eq_true, if_false, if_true]
   repeat' split
   all_goals first
     | exact ⟨n1, n2, n3, n4, n5, n6⟩
@@ -1472,7 +1546,8 @@ theorem stepP_NInv_push (s : St) (i : Nat) (op : Option POp) (c v rest p) (hpc :
     (hL : LInv s) (h : NInv s) : NInv (stepP s i op) := by
   obtain ⟨n1, n2, n3, n4, n5, n6⟩ := h
   have hp : s.v.plock = true := by rw [hL.var]; rfl
-  simp only [stepP, hpc, startP, St.endSample, St.beginSample, St.setP, hp, if_true]
+  have hq : s.v.pipe = false := by rw [hL.var]; rfl
+  simp only [stepP, hpc, startP, St.endSample, St.beginSample, St.setP, hp, hq, Bool.false_eq_true, if_false, if_true]
   repeat' split
   all_goals first
     | exact ⟨n1, n2, n3, n4, n5, n6⟩
@@ -1482,7 +1557,8 @@ theorem stepP_NInv_ntf (s : St) (i : Nat) (op : Option POp) (c rest) (hpc : s.pp
     (hL : LInv s) (h : NInv s) : NInv (stepP s i op) := by
   obtain ⟨n1, n2, n3, n4, n5, n6⟩ := h
   have hp : s.v.plock = true := by rw [hL.var]; rfl
-  simp only [stepP, hpc, startP, St.endSample, St.beginSample, St.setP, hp, if_true]
+  have hq : s.v.pipe = false := by rw [hL.var]; rfl
+  simp only [stepP, hpc, startP, St.endSample, St.beginSample, St.setP, hp, hq, Bool.false_eq_true, if_false, if_true]
   repeat' split
   all_goals first
     | exact ⟨n1, n2, n3, n4, n5, n6⟩
@@ -1492,7 +1568,8 @@ theorem stepP_NInv_tryLock (s : St) (i : Nat) (op : Option POp) (v rest) (hpc : 
     (hL : LInv s) (h : NInv s) : NInv (stepP s i op) := by
   obtain ⟨n1, n2, n3, n4, n5, n6⟩ := h
   have hp : s.v.plock = true := by rw [hL.var]; rfl
-  simp only [stepP, hpc, startP, St.endSample, St.beginSample, St.setP, hp, if_true]
+  have hq : s.v.pipe = false := by rw [hL.var]; rfl
+  simp only [stepP, hpc, startP, St.endSample, St.beginSample, St.setP, hp, hq, Bool.false_eq_true, if_false, if_true]
   repeat' split
   all_goals first
     | exact ⟨n1, n2, n3, n4, n5, n6⟩
@@ -1502,7 +1579,8 @@ theorem stepP_NInv_pop (s : St) (i : Nat) (op : Option POp) (v rest p) (hpc : s.
     (hL : LInv s) (h : NInv s) : NInv (stepP s i op) := by
   obtain ⟨n1, n2, n3, n4, n5, n6⟩ := h
   have hp : s.v.plock = true := by rw [hL.var]; rfl
-  simp only [stepP, hpc, startP, St.endSample, St.beginSample, St.setP, hp, if_true]
+  have hq : s.v.pipe = false := by rw [hL.var]; rfl
+  simp only [stepP, hpc, startP, St.endSample, St.beginSample, St.setP, hp, hq, Bool.false_eq_true, if_false, if_true]
   repeat' split
   all_goals first
     | exact ⟨n1, n2, n3, n4, n5, n6⟩
@@ -1512,8 +1590,9 @@ theorem stepP_NInv_clone (s : St) (i : Nat) (op : Option POp) (j') (hpc : s.pp i
     (hL : LInv s) (h : NInv s) : NInv (stepP s i op) := by
   obtain ⟨n1, n2, n3, n4, n5, n6⟩ := h
   have hp : s.v.plock = true := by rw [hL.var]; rfl
+  have hq : s.v.pipe = false := by rw [hL.var]; rfl
   have hres := hL.cloneRes i j' hpc
-  simp only [stepP, hpc, startP, St.endSample, St.beginSample, St.setP, hp, if_true]
+  simp only [stepP, hpc, startP, St.endSample, St.beginSample, St.setP, hp, hq, Bool.false_eq_true, if_false, if_true]
   repeat' split
   all_goals first
     | exact ⟨n1, n2, n3, n4, n5, n6⟩
@@ -1523,7 +1602,8 @@ theorem stepP_NInv_fetchSub (s : St) (i : Nat) (op : Option POp)  (hpc : s.pp i 
     (hL : LInv s) (h : NInv s) : NInv (stepP s i op) := by
   obtain ⟨n1, n2, n3, n4, n5, n6⟩ := h
   have hp : s.v.plock = true := by rw [hL.var]; rfl
-  simp only [stepP, hpc, startP, St.endSample, St.beginSample, St.setP, hp, if_true]
+  have hq : s.v.pipe = false := by rw [hL.var]; rfl
+  simp only [stepP, hpc, startP, St.endSample, St.beginSample, St.setP, hp, hq, Bool.false_eq_true, if_false, if_true]
   repeat' split
   all_goals first
     | exact ⟨n1, n2, n3, n4, n5, n6⟩
@@ -1533,7 +1613,8 @@ theorem stepP_NInv_stClosed (s : St) (i : Nat) (op : Option POp)  (hpc : s.pp i 
     (hL : LInv s) (h : NInv s) : NInv (stepP s i op) := by
   obtain ⟨n1, n2, n3, n4, n5, n6⟩ := h
   have hp : s.v.plock = true := by rw [hL.var]; rfl
-  simp only [stepP, hpc, startP, St.endSample, St.beginSample, St.setP, hp, if_true]
+  have hq : s.v.pipe = false := by rw [hL.var]; rfl
+  simp only [stepP, hpc, startP, St.endSample, St.beginSample, St.setP, hp, hq, Bool.false_eq_true, if_false, if_true]
   repeat' split
   all_goals first
     | exact ⟨n1, n2, n3, n4, n5, n6⟩
@@ -1543,7 +1624,8 @@ theorem stepP_NInv_ntfW (s : St) (i : Nat) (op : Option POp)  (hpc : s.pp i = .n
     (hL : LInv s) (h : NInv s) : NInv (stepP s i op) := by
   obtain ⟨n1, n2, n3, n4, n5, n6⟩ := h
   have hp : s.v.plock = true := by rw [hL.var]; rfl
-  simp only [stepP, hpc, startP, St.endSample, St.beginSample, St.setP, hp, if_true]
+  have hq : s.v.pipe = false := by rw [hL.var]; rfl
+  simp only [stepP, hpc, startP, St.endSample, St.beginSample, St.setP, hp, hq, Bool.false_eq_true, if_false, if_true]
   repeat' split
   all_goals first
     | exact ⟨n1, n2, n3, n4, n5, n6⟩
@@ -1734,6 +1816,8 @@ theorem step_WInv (s : St) (l : Label) (h : WInv s) : WInv (step s l) := by
   | prod i op => exact stepP_NInv s i op h.l h.n
   | cons st => exact stepC_NInv s st h.l h.n
   | stop st => exact stepS_NInv s st h.n
+  | rcv op => have hq : s.v.pipe = false := by rw [h.l.var]; rfl
+              simpa [step, stepR, hq] using h.n
 
 theorem run_WInv (s : St) (ls : List Label) (h : WInv s) : WInv (run s ls) := by
   induction ls generalizing s with
